@@ -97,7 +97,7 @@ MORE3 = {  # worlds added with the sixth round of seeded changes and review roun
  "C04": "; a constrained type with pre_validate / post_validate hooks of its own alone at the top of a call; sets and frozensets of typing.Any given elements they cannot hash",
  "C06": "; the library's marker for 'not provided' as an input value",
  "C07": "; an aliased case-insensitive field with a dependant, a property deleter that fails after it has changed the instance",
- "C08": "; bare Generator / AsyncIterator annotations (a decoration that fails is a violation)",
+ "C08": "; bare Generator / AsyncIterator annotations (a decoration that fails is a violation); a third signature with positional-only parameters (one defaulted, left out or given) next to **kw: str and keywords named like them",
  "C10": "; runs under invalid_values='exclude' with dependencies on required fields, a fourth typed output under a cap of 2, additional items typed by a constrained leaf",
  "C11": "; unions pairing a sequence with a mapping (the value's own kind first under the policies), the key policy as the only one that is on, pair-list inputs with an unknown discriminator, fields required by mode that have a default",
  "C17": "; Array / Object fields under a constraint, Annotated[..., Field(...)] around references under postponed evaluation, Self in a lazily evaluated annotation inherited by a subclass that re-defaults the field (own small world with a direct twin), local classes that name each other",
@@ -111,7 +111,7 @@ for _k, _v in MORE3.items():
 for _k, _v in MORE2.items():
     CLAIMED[_k]["level"] += _v
 CLAIMED["C20"]["note"] = CLAIMED["C20"]["note"].replace("races that need two narrow windows are hit ~2 per 10000 runs (thorough tier)", "races that need two narrow windows are reached through the anchor-cut schedules (the three seeded ones within the quick tier's 6000 runs)")
-CLAIMED["C08"]["note"] = CLAIMED["C08"]["note"].replace("the binding clause of C08 (a pure function of signature and call) is NOT decided", "the binding clause of C08 (a pure function of signature and call) is NOT decided beyond the two signatures the worlds use")
+CLAIMED["C08"]["note"] = CLAIMED["C08"]["note"].replace("the binding clause of C08 (a pure function of signature and call) is NOT decided", "the binding clause of C08 (a pure function of signature and call) is NOT decided beyond the three signatures the worlds use")
 
 NA = {
  "C01": "pure function of (declaration, options, input): no schedule, history, fault or knob can change the verdict; sampling inputs would be property-based testing, not simulation",
